@@ -419,7 +419,8 @@ fn c15_stream_writer(ctx: &mut Ctx, ch: &Choices) -> R {
     let rate_must_accept = table || (rate > 0 && (rate < 65535 || (rate % 1000 == 0 && rate / 1000 < 255) || (rate % 10 == 0 && rate / 10 < 65535)));
     let rate_must_reject = !table && rate > 65535 && !(rate % 1000 == 0 && rate / 1000 <= 255) && !(rate % 10 == 0 && rate / 10 <= 65535);
     let subset_bps = matches!(bps, 8 | 12 | 16 | 20 | 24 | 32);
-    let shape_ok = (1..=8).contains(&chn) && subset_bps && len >= 1 && len <= 65535 && n % chn as usize == 0;
+    // the effective PCM frame count (the ragged variant adds one sample, which for mono is one more whole frame)
+    let shape_ok = (1..=8).contains(&chn) && subset_bps && n % chn as usize == 0 && n / chn as usize >= 1 && n / chn as usize <= 65535;
     let legal = shape_ok && rate_must_accept;
     let illegal = !shape_ok || rate_must_reject;
     if !legal && !illegal {
